@@ -158,11 +158,11 @@ def make_traces(prop, tier, seed, workdir, drive):
     traces.append(s3)
     # S4: exhaustive search of the implementation to a small depth around prepared states
     from concurrent.futures import ThreadPoolExecutor
-    names = ["fresh", "inflight", "answered", "paused", "between", "lastbatch", "oneshot", "module", "binding"]
+    names = ["fresh", "inflight", "answered", "paused", "between", "lastbatch", "oneshot", "module", "params", "binding"]
     if tier == "quick":
         names = [n for n in names if n not in ("fresh", "lastbatch")]
     deeper = [] if tier == "quick" else ["-steps", "5"]      # thorough: one level deeper (binding: as configured)
-    with ThreadPoolExecutor(max_workers=9) as ex:
+    with ThreadPoolExecutor(max_workers=10) as ex:
         res = list(ex.map(lambda n: drive(["explore", "-in", n, "-n", "400000", "-out", os.path.join(workdir, "s4%s.ndjson" % n)]
                                           + ([] if n == "binding" else deeper)), names))
     stats["exhaustive_search"] = res
